@@ -337,7 +337,17 @@ func (c *Ctx) checkStateStore(a *stateAnalysis, fn *ssa.Function, st *ssa.Store,
 	}
 	df := gateFlowDeep(root, facts{})
 	fs, _ := df.at(st)
-	has := func(f string) bool { return fs != nil && fs.has(f) }
+	has := func(f string) bool {
+		if fs == nil {
+			return false
+		}
+		for _, part := range strings.Split(f, "&") {
+			if !fs.has(part) {
+				return false
+			}
+		}
+		return true
+	}
 	type gate struct {
 		fact string
 		from stateSet
@@ -348,7 +358,7 @@ func (c *Ctx) checkStateStore(a *stateAnalysis, fn *ssa.Function, st *ssa.Store,
 	case stAuth:
 		gates = []gate{
 			{"ok:Session.Login", stNotAuth, "LOGIN succeeded"},
-			{"true#1:Server.Next", stNotAuth, "SASL exchange done"},
+			{"true#1:Server.Next&ok:Server.Next", stNotAuth, "SASL exchange done without error"},
 			{"ok:Session.Unselect", stSelected, "mailbox unselected"},
 		}
 	case stSelected:
@@ -426,7 +436,10 @@ func (c *Ctx) labelsOf(fn *ssa.Function) []string {
 }
 
 // checkCanAuth evaluates canAuth over state × TLS × InsecureAuth.
-func (c *Ctx) checkCanAuth() {
+func (c *Ctx) checkCanAuth() { c.checkCanAuthAs("C05.b") }
+
+// checkCanAuthAs: the truth table, reported under the given rule.
+func (c *Ctx) checkCanAuthAs(ruleID string) {
 	p := c.P
 	fn := p.Func("imapserver", "Conn", "canAuth")
 	if fn == nil {
@@ -437,7 +450,10 @@ func (c *Ctx) checkCanAuth() {
 	rows, bad := 0, []string{}
 	for st := 0; st < 5; st++ {
 		for _, tls := range []bool{false, true} {
-			for _, insecure := range []bool{false, true} {
+			for _, insecure4 := range []int{0, 1, 2, 3} {
+				// every other option the predicate might (wrongly) consult varies
+				// too: whether a TLS configuration exists
+				insecure, tlsConfigured := insecure4&1 == 1, insecure4&2 == 2
 				in := &Interp{P: p}
 				in.Input = func(path string, t types.Type) (Val, bool) {
 					switch path {
@@ -447,26 +463,30 @@ func (c *Ctx) checkCanAuth() {
 						return mkBool(tls), true
 					case "c.server.options.InsecureAuth":
 						return mkBool(insecure), true
+					case "c.server.options.TLSConfig":
+						if !tlsConfigured {
+							return nilV{}, true
+						}
 					}
 					return nil, false
 				}
 				v, err := in.Eval(obj, ptrV{&objV{path: "c", fields: map[string]Val{}}}, nil)
 				if err != nil {
-					c.undecided("C05.b", "canAuth truth table", fn.Pos(), err.Error())
+					c.undecided(ruleID, "canAuth truth table", fn.Pos(), err.Error())
 					return
 				}
 				got, ok := valBool(v)
 				want := st == 1 && (tls || insecure)
 				rows++
 				if !ok || got != want {
-					bad = append(bad, fmt.Sprintf("state=%s tls=%v insecure=%v → %s (want %v)", stateNames[st], tls, insecure, showVal(v), want))
+					bad = append(bad, fmt.Sprintf("state=%s tls=%v insecure=%v TLSConfig-set=%v → %s (want %v)", stateNames[st], tls, insecure, tlsConfigured, showVal(v), want))
 				}
 			}
 		}
 	}
 	c.evals += rows
-	c.check(len(bad) == 0, "C05.b", "canAuth truth table", fn.Pos(),
-		fmt.Sprintf("%d rows (5 states × TLS × InsecureAuth): true iff NotAuthenticated ∧ (TLS ∨ InsecureAuth)", rows),
+	c.check(len(bad) == 0, ruleID, "canAuth truth table", fn.Pos(),
+		fmt.Sprintf("%d rows (5 states × TLS × InsecureAuth × TLSConfig set/unset): true iff NotAuthenticated ∧ (TLS ∨ InsecureAuth)", rows),
 		"canAuth deviates: "+strings.Join(bad, "; "))
 }
 
